@@ -80,10 +80,14 @@ pub use vocab_sem::*;
 impl DomainId {
     pub open spec fn val(self, a: Asg) -> int { a(self.id as int) }
 }
-impl PropositionalConjunction {
-    pub fn from(v: Vec<Predicate>) -> (r: Self)
-        ensures r.predicates_in_conjunction@ == v@
-    { PropositionalConjunction { predicates_in_conjunction: v } }
+// the conversions of the real type (From<Vec<Predicate>> through the blanket `impl<T: Into<Vec<Predicate>>> From<T>`,
+// From<Predicate>): both wrap the given predicates
+impl vstd::std_specs::convert::FromSpecImpl<Vec<Predicate>> for PropositionalConjunction {
+    open spec fn obeys_from_spec() -> bool { true }
+    open spec fn from_spec(v: Vec<Predicate>) -> Self { PropositionalConjunction { predicates_in_conjunction: v } }
+}
+impl From<Vec<Predicate>> for PropositionalConjunction {
+    fn from(v: Vec<Predicate>) -> (r: Self) { PropositionalConjunction { predicates_in_conjunction: v } }
 }
 
 impl vstd::std_specs::convert::FromSpecImpl<EmptyDomain> for Inconsistency {
